@@ -589,6 +589,46 @@ def c18(ctx):
     ctx.exhaustive = True
 
 
+# ---------------------------------------------------------------------------------------------
+# LongForm: C17
+
+def c17(ctx):
+    ctx.rule = ("LongForm.tla: creation is a function of (document, update / recovery keys): each of 4 documents (one "
+                "single-purpose P-256 key; three keys Ed25519 / P-384 / secp256k1 with 1-3 purposes, a service and an "
+                "also-known-as URI; two keys P-521 / P-256 with two services and two URIs incl. one that URL "
+                "normalisation would change; a service only) x 2 key pairs is created Repeats times and must give the "
+                "same DID (action property Deterministic, invariant Injective); the created and the read document "
+                "must be equivalent to the supplied one (key ids, JWK material, relationship sets, services, URIs), the "
+                "id the long-form DID, the metadata name the short form and the reference commitments, the suffix be "
+                "the reference model hash of the state's suffix data, the state be canonical; ProcessOperation of the "
+                "create request gives the same DID and of an update request an error; every single-character change "
+                "of each DID (11 replacement characters per position) is rejected. Resolution probes: namespace "
+                "relation (same, extended did:ionx, truncated, other method, method prefix, upper case, no scheme) x "
+                "state spelling (canonical, whitespace, member order, padded, other spelling of trailing bits, "
+                "tampered character, not base64url, another document's state, an update request, empty) x suffix "
+                "(matching, the other document's, empty) x form (long, short), at most two deviations; resolves iff "
+                "own namespace, long form, state and suffix of the same request.")
+    ctx.assumptions = ["'equivalent document' = same key id fragments, JWK x coordinates, relationship sets, service ids / "
+                       "types / endpoints, also-known-as URIs; nothing about member order or contexts",
+                       "did:ion:<anything>:<suffix>:<state> and a state whose create request carries its type member are "
+                       "not asserted either way (the statement's 'only if' does not exclude them)"]
+    rep = 3 if ctx.tier == "quick" else 6
+    _, summ = ctx.tlc_pipe("MC_LongForm.tla", "MC_LongForm.cfg", ["longform-replay"], overrides={"Repeats": rep}, workers=4,
+                           label="creations x %d, resolution probes" % rep, timeout=3000)
+    ctx.cov["evaluations"] += summ["extra"]["single_character_changes"]
+    if summ["extra"]["single_character_changes"] < 1000:
+        raise Infra("single-character sweep did not run")
+
+    def wrong(rec):
+        rec["kind"] = "resolve"
+        rec["resolves"] = False
+        rec["probe"] = {"doc": 1, "ns": "same", "enc": "canonical", "sfx": "matching", "form": "long"}
+        rec["doc"] = 1
+
+    ctx.negctl_replay(["longform-replay"], summ["_first_edge"], wrong)
+    ctx.exhaustive = False
+
+
 def replay(path):
     """re-execute exactly the case of a replay file against the current tree"""
     m = json.load(open(path))
@@ -661,6 +701,7 @@ CHECKS = {
     "C11": c11,
     "C13": c13,
     "C14": c14,
+    "C17": c17,
     "C18": c18,
     "C12": c12,
 }
